@@ -32,6 +32,23 @@ type Handler = Box<dyn FnMut(&str) -> FailAction>;
 thread_local! {
     static HANDLER: RefCell<Option<Handler>> = const { RefCell::new(None) };
     static NEXT_VERSION_ID: std::cell::Cell<Option<u128>> = const { std::cell::Cell::new(None) };
+    static NEXT_SALT: std::cell::Cell<Option<u64>> = const { std::cell::Cell::new(None) };
+}
+
+/// Make `Cryptor::gen_salt` of the calling thread return counter-based salts starting at `start`
+/// (or random ones again with `None`), so that explorations of a first connection to an empty
+/// store are replayable and the derived keys can be memoised.
+pub fn set_salt_counter(start: Option<u64>) {
+    NEXT_SALT.with(|c| c.set(start));
+}
+
+/// The next counter-based salt of the calling thread, if a counter is installed.
+pub fn next_salt() -> Option<Vec<u8>> {
+    NEXT_SALT.with(|c| {
+        let n = c.get()?;
+        c.set(Some(n + 1));
+        Some(format!("verifsalt{n:07}").into_bytes())
+    })
 }
 
 /// Make the object-store server of the calling thread issue counter-based version ids starting
